@@ -815,6 +815,33 @@ func modeC08(thorough bool, only string) {
 		}
 	}
 	if only == "" || only == "c19" {
+		if useRedis == "both" {
+			// a small memory cache in front of redis: the 12 s answer is pushed out of memory and found again in
+			// redis inside its refresh window by two hits at once; the second one's redis reply is slow and arrives
+			// when the first one's refresh has already stored the renewed answer: later hits see the renewed one
+			small := base
+			small.cacheMem = 16 << 10
+			for k := 0; k < 3; k++ {
+				pr := n("r0t12d0")
+				add(fmt.Sprintf("p-redisrace%d", k), small, func(in *inst) {
+					// the refresh that the second hit starts in its turn is slow: for 700 ms nothing repairs the cache
+					in.ups["u1"].setSeq(pr, "r0t12d0", "r0t12d0", "r0t12d700", "r0t12d0")
+					go func() {
+						time.Sleep(150 * time.Millisecond)
+						par(10, func(i int) {
+							for j := 0; j < 30; j++ {
+								in.send("udp", "127.0.1.1", mkq(n("r0t1d0")), 4*time.Second, nil)
+							}
+						})
+					}()
+					go func() {
+						time.Sleep(9350 * time.Millisecond)
+						in.redis.getPlan <- 60 * time.Millisecond
+						in.redis.getPlan <- 400 * time.Millisecond
+					}()
+				}, step{0, 1, pr}, step{ms(9500), 1, pr}, step{ms(9515), 1, pr}, step{ms(10150), 2, pr}, step{ms(10400), 1, pr}, step{ms(11300), 1, pr})
+			}
+		}
 		// single flight: many hits in the refresh window while the refresh is stalled, then renewed TTLs
 		p1 := n("r0t8d0")
 		add("p-single", base, func(in *inst) { in.ups["u1"].setSeq(p1, "r0t8d0", "r0t8d1100") },
